@@ -37,7 +37,11 @@ def observe(kind, r):
 
 
 number = st.one_of(st.integers(0, 60).map(str), st.integers(0, 9999).map(str), S.uni(0, 10**10 - 1).map(str),
-                   st.sampled_from(["0", "00", "007", "4294967295", "4294967296", "8247146360", "999999999", "1000000000", "2147483648"]))
+                   st.sampled_from(["0", "00", "007", "4294967295", "4294967296", "8247146360", "999999999", "1000000000", "2147483648"]),
+                   # a small number plus a power of two (or ten): what any fixed-width accumulator, of whatever width, would wrap back to the small number
+                   st.builds(lambda k, r: str(2**k + r), st.one_of(st.sampled_from([32, 63, 64, 127, 128, 255, 256]), st.integers(31, 300)), st.integers(0, 60)),
+                   st.builds(lambda k, r, m: str(m * 2**k + r), st.sampled_from([32, 64, 128]), st.integers(0, 4000), st.integers(1, 9)),
+                   st.builds(lambda k, r: str(10**k + r), st.integers(10, 90), st.integers(0, 60)))
 fraction = st.one_of(st.text("0123456789", min_size=1, max_size=9), st.sampled_from(["5", "25", "43", "0000005", "0000015", "9999995", "999999999", "0000001"]),
                      st.text("0123456789", min_size=10, max_size=30),
                      # exact half a microsecond (on S) followed by zeros and one late non-zero digit: only exact arithmetic rounds it up
